@@ -413,6 +413,19 @@ def check_exact(case):
     rk = lib_rank(out, "rank(A^H)", Q(AH), tags=htags)
     if rk is not None:
         out.true("rank(A^H):equals rank(A)", rk == r, f"rank(A^H)={rk}, " + msg, tags=htags, value=rk)
+    if case["kind"] == "monomial" and r == k and r >= 1:
+        # an EXPLICIT tolerance of 0 counts every non-zero singular value, however small: the full-rank monomial matrix
+        # gets one tiny (exactly representable) diagonal value and must keep its rank
+        T = A.copy()
+        nzpos = np.argwhere(np.any(T != 0, axis=2))
+        if len(nzpos) >= 1:
+            i0, j0 = (int(v) for v in nzpos[-1])
+            T[i0, j0] = T[i0, j0] * 2.0 ** -70
+            rk0 = lib_rank(out, "rank(A,tol=0)", Q(T), tags=("explicit_tol",), tol=0)
+            if rk0 is not None:
+                out.true("rank(A,tol=0):counts every non-zero singular value", rk0 == r,
+                         f"rank={rk0}, {r} singular values are > 0 (the smallest about 1e-21 of the largest)",
+                         tags=("explicit_tol",), value=rk0)
     # invariance under exactly invertible factors (product proven exact -> rank is r by Sylvester)
     if P is None:                 # long-dimension cases: no exactly invertible m x m factor is drawn
         PA = PAQ = None
@@ -645,6 +658,11 @@ def moore_cases(draw, tier):
         lam[draw(st.integers(0, n - 1))] = lam[draw(st.integers(0, n - 1))]
     e = draw(st.sampled_from([0, 0, 0, -6, -2, 2, 6]))
     lam = lam * 10.0 ** e
+    if n >= 2 and draw(st.integers(0, 4)) == 0:
+        # graded spectrum: eigenvalues of either sign whose moduli differ by many orders of magnitude (far from singular)
+        ex = draw(st.lists(st.integers(-8, 8), min_size=n, max_size=n))
+        sg = draw(st.lists(st.sampled_from([1.0, -1.0]), min_size=n, max_size=n))
+        lam = np.array([s_ * (1.0 + 0.25 * i) * 4.0 ** x for i, (s_, x) in enumerate(zip(sg, ex))])
     H = draw(gen.hermitian_with_spectrum(n, lam))
     if n >= 2 and draw(st.integers(0, 2)) == 0:
         # structured Hermitian matrices written down entry by entry (exact zeros in the pattern: arrow, banded, block
